@@ -49,6 +49,31 @@ def seq_h(term, ty, n):
              unwind=max(n + 2, 7), weight=n * 2)
 
 
+def drain_h(term, ty, src, n, c):
+    """iterator-backed source (unknown or known length), first-worker-drains-all schedule: the finder is alone until it
+    returns, so once it has published early exit nobody may evaluate anything beyond the chunk that holds the first match"""
+    p = Pipeline(src, chain_for(ty), count_calls=True)
+    k = p.final_kind()
+    from gen.dsl import fderef, KT
+    v = fderef(k)
+    body = unsched_prelude(n, 2, tagged=True, src=src)
+    pr = f"move |x: &{KT[k]}| {{ bump(4, {v}); {v} & 16 == 0 }}"
+    call = {"find": f".find({pr}).is_some()", "any": f".any({pr})", "first": ".first().is_some()"}[term]
+    body += f"    let r = {p.par(params_str(2, c))}{call};\n"
+    single = {"find": f"{p.seq_single('i')}.any(|x| {val_of(k, 'x')} & 16 == 0)", "any": f"{p.seq_single('i')}.any(|x| {val_of(k, 'x')} & 16 == 0)",
+              "first": f"{p.seq_single('i')}.next().is_some()"}[term]
+    body += "    ORACLE.store(true, AO::Relaxed);\n"
+    body += f"    let mut m = {n};\n    let mut i = {n};\n    while i > 0 {{ i -= 1; if {single} {{ m = i; }} }}\n"
+    body += f"    let lim = (m / {c} + 1) * {c};\n"
+    for j in range(n):
+        for st in range(5):
+            body += f'    assert!({j} < lim || calls({st}, {j}) == 0, "an element beyond the chunk holding the first match was evaluated although the finder ran alone");\n'
+    body += f"    kani::cover!(m + {c} < {n});\n    kani::cover!(model::drainer() == 1);\n"
+    name = cfg_name("c10_drain", term, ty, src, f"n{n}", f"c{c}")
+    return H(name, body, {"terminal": term, "type": ty, "src": src, "n": n, "threads": 2, "chunk": f"Exact({c})",
+                          "schedule": "first worker drains all (iterator-backed source)"}, unwind=n + 3, weight=8)
+
+
 def endless_h(term, c):
     body = "    let m: u8 = kani::any();\n    kani::assume(m <= 3);\n    model::begin_unscheduled(2);\n"
     if term == "find":
@@ -75,6 +100,8 @@ def harnesses(tier, seed):
                 hs.append(par_h(term, ty, 3 if (ty == "FLF" and c == 2) else 4, 2, c))
         hs += [seq_h("find", "MF", 3), seq_h("any", "FMF", 3), seq_h("find", "FLF", 3)]
         hs += [endless_h("find", 1), endless_h("find", 2), endless_h("first", 1)]
+        hs += [drain_h("find", "MF", "iterf", 4, 1), drain_h("find", "M", "iterf", 4, 2), drain_h("find", "FMF", "iterf", 4, 1),
+               drain_h("find", "FLF", "iterf", 3, 1), drain_h("any", "F", "iter", 4, 1)]
     else:
         for ty in ("E", "M", "F", "MF", "FM", "FMF", "FL", "FLF"):
             for term in ("find", "any", "all", "first"):
@@ -86,4 +113,10 @@ def harnesses(tier, seed):
         for term in ("find", "any", "first"):
             for c in (1, 2, 3):
                 hs.append(endless_h(term, c))
+        for ty in ("E", "M", "F", "MF", "FM", "FMF", "FL", "FLF"):
+            for src in ("iterf", "iter", "deque"):
+                for c in (1, 2):
+                    hs.append(drain_h("find", ty, src, 4, c))
+            hs.append(drain_h("any", ty, "iterf", 4, 1))
+            hs.append(drain_h("first", ty, "iterf", 4, 1))
     return hs
